@@ -47,7 +47,13 @@ def main():
     if behaviour == "hang_ignore_term":
         import signal
         signal.signal(signal.SIGTERM, signal.SIG_IGN)     # only SIGKILL ends this one
-    emit(event="started", behaviour=behaviour, args=args)
+    extra = {}
+    if "--distmat-in" in args:                # ClustalO: what the wrapper wrote for us
+        try:
+            extra["distmat_in"] = open(args[args.index("--distmat-in") + 1]).read()
+        except OSError as e:
+            extra["distmat_in"] = "unreadable: " + str(e)
+    emit(event="started", behaviour=behaviour, args=args, **extra)
     if behaviour in ("hang", "hang_ignore_term"):
         end = time.time() + 600
         while time.time() < end:
@@ -100,6 +106,8 @@ def main():
         emit(event="exit", code=0)
         return 0
     elif "--plain" in args:                  # bare LocalApp: no files at all
+        if "--read-stdin" in args:
+            emit(event="stdin", data=sys.stdin.read())
         sys.stdout.write("plain output\n")
         if behaviour == "sigkill":
             die()
@@ -134,7 +142,11 @@ def main():
         text = ""
         rows = []
     else:
-        text = "".join(f">{n}\n{s}\n" for n, s in rows)
+        if behaviour == "reorder":
+            # real programs wrap long records: write the rows in lines of 5 characters
+            text = "".join(f">{n}\n" + "".join(s[i:i + 5] + "\n" for i in range(0, len(s), 5)) for n, s in rows)
+        else:
+            text = "".join(f">{n}\n{s}\n" for n, s in rows)
     if to_stdout:
         sys.stdout.write(text)
     else:
@@ -146,9 +158,14 @@ def main():
         newick = "(" * (n - 1) + "1_0:1.0" + "".join(f",{i + 1}_{i}:1.0):1.0" for i in range(1, n - 1)) + f",{n}_{n - 1}:1.0);"
     if behaviour == "garbage_tree":
         newick = "((this is not ; newick"
-    for t in trees:
+    for k, t in enumerate(trees):
+        nw = newick
+        if len(trees) == 2 and k == 0 and behaviour != "garbage_tree" and n >= 3:
+            # MUSCLE 3 writes two trees (-tree1: k-mer iteration, -tree2: identity iteration): make them different,
+            # tree1 is the caterpillar over the *reversed* index order ((..((n-1,n-2),n-3)..),0)
+            nw = "(" * (n - 1) + f"{n - 1}:1.0" + "".join(f",{i}:1.0):1.0" for i in range(n - 2, 0, -1)) + ",0:1.0);"
         with open(t, "w") as f:
-            f.write(newick + "\n")
+            f.write(nw + "\n")
     if distmat_out:
         with open(distmat_out, "w") as f:
             f.write(f"{n}\n" + "".join(f"{i} " + " ".join(f"{abs(i - j):.1f}" for j in range(n)) + "\n" for i in range(n)))   # d(i,j) = |i-j|
